@@ -728,10 +728,12 @@ fn registry_files(cx: &Ctx, thorough: bool) {
 }
 
 fn record_bytes(cx: &Ctx, thorough: bool) {
-    let key = RecordKey::new(&[1u8; 32]);
-    let rec = |v: &[u8]| Record { key: key.clone(), value: v.to_vec(), publisher: None, expires: None };
+    let key = std::cell::RefCell::new(RecordKey::new(&[1u8; 32]));
+    let rec = |v: &[u8]| Record { key: key.borrow().clone(), value: v.to_vec(), publisher: None, expires: None };
     let decode_all = |cx: &Ctx, v: &[u8], how: String| {
         let r = rec(v);
+        // (the key is part of the case identity: the same bytes under keys of other lengths are other cases)
+        let v = &[&(r.key.as_ref().len() as u32).to_be_bytes()[..], v].concat()[..];
         cx.call("RecordHeader::from_record", json!(how), &[b"h", v].concat(), true, || RecordHeader::from_record(&r).map(|h| h.kind));
         cx.call("RecordHeader::is_record_of_type_chunk", json!(how), &[b"i", v].concat(), true, || RecordHeader::is_record_of_type_chunk(&r));
         cx.call("try_deserialize_record<Chunk>", json!(how), &[b"c", v].concat(), true, || try_deserialize_record::<Chunk>(&r).map(|_| ()));
@@ -781,6 +783,27 @@ fn record_bytes(cx: &Ctx, thorough: bool) {
             decode_all(cx, m, format!("mutation of {name} encoding, len {}", m.len()));
         });
     }
+    // a record arriving from the network carries whatever key its sender chose: keys of every length 0..=40 (and 64, 255,
+    // 1000 bytes) x bodies that decode, that fail in the header, and that fail behind a valid header
+    let chunk_enc = encs[0].1.clone();
+    let bodies: Vec<(&str, Vec<u8>)> = vec![
+        ("empty", vec![]),
+        ("one byte", vec![0x91]),
+        ("header only", vec![0x91, 0x01]),
+        ("valid header, truncated body", vec![0x91, 0x01, 0xc6, 0xff]),
+        ("unknown kind", vec![0x91, 0x7f, 0x00]),
+        ("garbage", vec![0xff; 8]),
+        ("a valid chunk encoding", chunk_enc),
+    ];
+    for klen in (0..=40usize).chain([64, 255, 1000]) {
+        for fill in [0x00u8, 0xab] {
+            *key.borrow_mut() = RecordKey::new(&vec![fill; klen]);
+            for (bname, body) in &bodies {
+                decode_all(cx, body, format!("{bname} under a {klen}-byte key of {fill:#04x}"));
+            }
+        }
+    }
+    *key.borrow_mut() = RecordKey::new(&[1u8; 32]);
     // huge declared lengths with nothing behind them (allocation bombs must be errors, not aborts)
     for hdr in [[0x91u8, 0x01], [0x91, 0x05], [0x91, 0x02]] {
         for tail in [&[0xc6u8, 0xff, 0xff, 0xff, 0xff][..], &[0xdd, 0xff, 0xff, 0xff, 0xff][..], &[0xdf, 0xff, 0xff, 0xff, 0xff][..], &[0xdb, 0xff, 0xff, 0xff, 0xff][..]] {
@@ -798,7 +821,7 @@ pub fn main(tier: Option<&str>) {
          every truncation and single-character substitution of a valid string, non-ASCII), every port token pair, all 65536 ports, \
          all strings <=4 over a 9-character alphabet for amounts, every sequence of <=4(5) multiaddr protocol tokens, every \
          truncation and structural single-token mutation of a valid cache file / registry file, every byte string <=1(2) plus all \
-         sequences <=3(4) over 24 msgpack marker bytes and every truncation / substitution of real record encodings; for every text \
+         sequences <=3(4) over 24 msgpack marker bytes and every truncation / substitution of real record encodings, 7 bodies under record keys of every length 0..=40, 64, 255, 1000; for every text \
          parser additionally strings with one 2-, 3- or 4-byte character at every byte offset 0..=120/200(600), followed by 0, 1 or 40 fillers. \
          A case is non-trivial when it reaches past the first syntactic check (even-length hex, decimal-shaped, well-formed tokens).",
     );
